@@ -140,8 +140,20 @@ pub(crate) fn eat_glyph_name_like(parser: &mut Parser) -> bool {
         parser.warn(" when used as glyph name 'NULL' should be escaped ('\\NULL')");
         parser.eat_remap(Kind::NullKw, AstKind::GlyphName);
         true
+    } else if parser.matches(0, Kind::Cid) {
+        // a CID is a 16-bit number; later stages parse it without checking
+        let in_range = std::str::from_utf8(parser.nth_raw(0))
+            .ok()
+            .and_then(|text| text.parse::<u16>().ok())
+            .is_some();
+        if in_range {
+            parser.eat(Kind::Cid)
+        } else {
+            parser.err_and_bump("CID must be in the range 0..=65535");
+            true
+        }
     } else {
-        parser.eat(Kind::Cid)
+        false
     }
 }
 
